@@ -1056,6 +1056,23 @@ def orc_labels(case):
                             + f'; mean of rows {idx} labelled {u!r} is {list(want)}')
                 if not _eq(n_obs[i], len(idx)):
                     return f'n_obs for label {u!r} is {n_obs[i]}, {len(idx)} rows carry it'
+            if case.get('nonfinite') and len(distinct) >= 2:
+                # a missing / overflowed sample (NaN / inf) in ONE row: only the average of that row's label may be affected
+                bad = float('nan') if case['nonfinite'] == 'nan' else float('inf')
+                d2 = _labelled(case)[0]
+                r0 = n // 2
+                d2.measurements[r0, 0] = bad
+                avg2, values2, _ = average_dataset_by(d2, 'lab')
+                for i, u in enumerate(values2):
+                    idx = [k for k in range(n) if _eq(lab[k], u)]
+                    want = np.mean([meas[k, :, 0] for k in idx], axis=0)
+                    for j in range(len(want)):
+                        if r0 in idx and j == 0:
+                            if np.isfinite(avg2[i][j]):
+                                return f'{case["nonfinite"]} in row {r0}, channel 0: the average of its label {u!r} is finite ({avg2[i][j]!r})'
+                        elif not _eq(avg2[i][j] / scale, want[j], 1e-6 if f32 else 1e-9):
+                            return (f'{case["nonfinite"]} in row {r0} (label {lab[r0]!r}), channel 0: the average for label {u!r}, '
+                                    f'channel {j} became {avg2[i][j]!r}; the mean of its own rows {idx} is {want[j] * scale!r}')
         else:
             return f'harness error: unknown check {what}'
     if state() != before:
@@ -1333,6 +1350,10 @@ def tier_c(run, thorough):
                             if what == 'odd_even' and len(set(labels)) < 2:
                                 ic = K_ODD_SINGLE
                             bd.check(orc_labels, case, ic, function=fn[(what, axis)])
+                            if what == 'average' and len(set(labels)) >= 2 and n >= 3 and container == 'array':
+                                # one missing / overflowed sample: only the average of its own label may change
+                                bd.check(orc_labels, dict(case, nonfinite=('nan', 'inf')[n % 2]), f'{kind},{axis},non-finite-sample',
+                                         function=fn[(what, axis)])
     bd.done()
     bds.append(bd)
 
